@@ -46,8 +46,11 @@ type Op struct {
 	Crash int      `json:"crash,omitempty"` // restart: crash at this fs-op of the next request (0 = clean)
 	Fault string   `json:"fault,omitempty"` // nri.drop nri.dup nri.unknown-id stub.update-error ...
 	Secs  int      `json:"secs,omitempty"`  // advance
+	Ev    string   `json:"ev,omitempty"`    // kind "x": the NRI event to deliver out of protocol (C14)
 	Gone  []string `json:"gone,omitempty"`  // restart: containers that disappear while the plugin is down
 	Skip  bool     `json:"skip,omitempty"`  // differential twin: do not deliver this op
+
+	identical bool // reconfigure with the configuration already in force (set at execution)
 }
 
 // CfgSpec is a policy configuration in harness terms (rendered to the real
@@ -107,10 +110,12 @@ type rCtr struct {
 	state      string   // creating created running stopped removed failed
 	init       told     // what the runtime itself sent in CreateContainer
 	t          told     // told view
+	rv         told     // what the runtime actually enforces: kubelet values, overwritten by UpdateContainer, with the plugin\'s answers on top
 	cur        *CtrSpec // current resources (after updates)
 	known      bool     // the plugin has seen a CreateContainer for it
 	stopSeen   bool     // the plugin has seen StopContainer (or a sync listing it exited)
 	lostGrant  string   // why an active container may hold no grant ("failed-update")
+	updated    bool     // its resources were changed by UpdateContainer (the balloons policy ignores updates)
 	cfgAtAlloc *CfgSpec // configuration in force when last (re)allocated
 	reqUnsure  bool     // a failed UpdateContainer left the plugin and the runtime with different ideas of the request
 	resAtAlloc bool     // reserved-class under the configuration in force when last (re)allocated
@@ -242,8 +247,8 @@ func (rt *runtimeModel) nriCtr(c *rCtr) *nri.Container {
 		return out
 	}
 	r := rt.linuxResources(c.pod.spec, spec)
-	// overlay the told view: the runtime reports what it currently enforces
-	t := c.t
+	// the runtime reports what it currently enforces
+	t := c.rv
 	if r.Cpu == nil && (t.CpusSet || t.MemsSet || t.HasShares) {
 		r.Cpu = &nri.LinuxCPU{}
 	}
